@@ -460,4 +460,4 @@ REG.contract(
     ensures={"inner_component_gets_exactly_the_dynamic_components_inputs_and_its_output_is_the_output": _orb_post},
 )
 
-import contracts.c01b  # noqa: E402,F401  (SlotNode.render)
+# contracts.c01b (SlotNode.render) is NOT registered: the unit did not finish within 25 minutes (DESIGN 9.5a, cost note)
